@@ -832,12 +832,45 @@ func rulePAR1NOPAR(w *World, r *Report) {
 			}
 			n++
 			key := fmt.Sprintf("%s:buildShards#%d", shortName(f), n-1)
-			ok := false
-			for _, cm := range w.factsAt(c) {
-				if parityFact(cm, false) {
-					ok = true
+			// the fact must hold at the call - or, when the call sits in a helper shared with
+			// other entry points (VerifyAllData), at every call of that helper made from Repair
+			holdsAt := func(in ssa.Instruction) bool {
+				for _, cm := range w.factsAt(in) {
+					if parityFact(cm, false) {
+						return true
+					}
 				}
+				return false
 			}
+			var judge func(in ssa.Instruction, depth int) bool
+			judge = func(in ssa.Instruction, depth int) bool {
+				if holdsAt(in) {
+					return true
+				}
+				g := in.Parent()
+				if g == fn || depth > 3 {
+					return false
+				}
+				var sites []ssa.CallInstruction
+				for _, cs := range w.callSites(g) {
+					if cs.Parent() == fn || (cs.Parent() != g && inRegion(fn, cs.Parent()) && cs.Parent().Parent() == nil && len(w.callSites(cs.Parent())) > 0) {
+						// only the calls that can come from Repair
+						if cs.Parent() == fn || reachesOnlyFrom(w, cs.Parent(), fn) {
+							sites = append(sites, cs)
+						}
+					}
+				}
+				if len(sites) == 0 {
+					return false
+				}
+				for _, cs := range sites {
+					if !judge(cs, depth+1) {
+						return false
+					}
+				}
+				return true
+			}
+			ok := judge(c, 0)
 			if ok {
 				r.ok("PAR1NOPAR", key, w.ipos(c), "shards are built only when a parity volume was loaded")
 			} else {
@@ -1293,6 +1326,73 @@ func ruleSIZESENT(w *World, r *Report) {
 			}
 		}
 	}
+	if n == 0 {
+		// the shard size kept in an ordinary local (no closure captures it): it is an SSA value,
+		// a web of phis ending in the store to d.shardByteCount. Every edge that brings a new value
+		// into the web must be taken under "previous value == 0".
+		for _, b := range fn.Blocks {
+			for _, in := range b.Instrs {
+				st, ok := in.(*ssa.Store)
+				if !ok {
+					continue
+				}
+				fa, ok := st.Addr.(*ssa.FieldAddr)
+				if !ok || fieldName(fa.X.Type(), fa.Field) != "shardByteCount" {
+					continue
+				}
+				web := map[*ssa.Phi]bool{}
+				var collect func(v ssa.Value)
+				collect = func(v ssa.Value) {
+					if p, ok := stripAllConv(v).(*ssa.Phi); ok && !web[p] && len(web) < 16 {
+						web[p] = true
+						for _, e := range p.Edges {
+							collect(e)
+						}
+					}
+				}
+				collect(st.Val)
+				for p := range web {
+					for i, e := range p.Edges {
+						ev := stripAllConv(e)
+						if q, isPhi := ev.(*ssa.Phi); isPhi && web[q] {
+							continue
+						}
+						if c, isC := constInt(ev); isC && c == 0 {
+							continue
+						}
+						n++
+						key := fmt.Sprintf("%s:shardByteCount-set#%d", shortName(fn), n-1)
+						pred := p.Block().Preds[i]
+						cm := cmpsAt(pred)
+						if iff, ok := pred.Instrs[len(pred.Instrs)-1].(*ssa.If); ok && pred.Succs[0] != pred.Succs[1] {
+							cm = append(cm, factCmps(Fact{iff.Cond, pred.Succs[0] == p.Block(), iff})...)
+						}
+						good := false
+						for _, c := range cm {
+							if c.Op != token.EQL || c.Y == nil {
+								continue
+							}
+							for _, pr := range [][2]ssa.Value{{c.X, c.Y}, {c.Y, c.X}} {
+								z, isC := constInt(pr[1])
+								q, isPhi := stripAllConv(pr[0]).(*ssa.Phi)
+								if isC && z == 0 && isPhi && web[q] {
+									good = true
+								}
+								if isPhi && web[q] && stripAllConv(pr[1]) == ev {
+									good = true
+								}
+							}
+						}
+						if good {
+							r.ok("SIZESENT", key, w.ipos(pred.Instrs[len(pred.Instrs)-1]), "set only while it is still 0 (or to the value it already has)")
+						} else {
+							r.bad("SIZESENT", key, w.ipos(pred.Instrs[len(pred.Instrs)-1]), "shardByteCount is set on a condition other than 'still 0': when the first volume found is not the one the condition expects, every volume is rejected as mismatched")
+						}
+					}
+				}
+			}
+		}
+	}
 	r.floor("SIZESENT", "assignments of the shard size", n, 1)
 }
 
@@ -1560,7 +1660,9 @@ func posProblem(w *World, v ssa.Value, at *ssa.BasicBlock, depth int, trustDefau
 	}
 	v = stripAllConv(v)
 	newRC := func() *rangeCtx { return &rangeCtx{memo: map[ssa.Value]*ival{}, busy: map[ssa.Value]bool{}} }
-	known := func(iv *ival) bool { return iv != nil && iv.lo.IsInt64() && iv.lo.Int64() >= 1 || iv != nil && !iv.lo.IsInt64() && iv.lo.Sign() > 0 }
+	known := func(iv *ival) bool {
+		return iv != nil && iv.lo.IsInt64() && iv.lo.Int64() >= 1 || iv != nil && !iv.lo.IsInt64() && iv.lo.Sign() > 0
+	}
 	switch x := v.(type) {
 	case *ssa.Phi:
 		for i, e := range x.Edges {
@@ -1906,4 +2008,31 @@ func normalisedInPlace(w *World, cell *ssa.Alloc, field int, use ssa.Instruction
 		}
 	}
 	return false
+}
+
+// reachesOnlyFrom: every call site of private function g is in fn or in a function for which the
+// same holds (g is a helper of fn alone).
+func reachesOnlyFrom(w *World, g, fn *ssa.Function) bool {
+	seen := map[*ssa.Function]bool{}
+	var rec func(g *ssa.Function, d int) bool
+	rec = func(g *ssa.Function, d int) bool {
+		if g == fn {
+			return true
+		}
+		if seen[g] || d > 4 {
+			return false
+		}
+		seen[g] = true
+		cs := w.callSites(g)
+		if len(cs) == 0 {
+			return false
+		}
+		for _, c := range cs {
+			if !rec(c.Parent(), d+1) {
+				return false
+			}
+		}
+		return true
+	}
+	return rec(g, 0)
 }
